@@ -502,21 +502,21 @@ def invGammaPGuard (a : Rat) : G := if a ≤ 0 then stop else pass
 abbrev invGammaPFullMeaningful (p a : Rat) : Prop := 0 < a ∧ 0 ≤ p ∧ p ≤ 1
 def invGammaPFullGuard (p a : Rat) : G := if a ≤ 0 then stop else if p < 0 ∨ p > 1 then stop else pass
 
-/-- `Round(N, digits)` after fix 710b478: `if(digits > 7)` stops first, then `if(N == 0) return 0;` -/
-abbrev roundMeaningful (digits : Nat) : Prop := digits ≤ 7
-def roundGuard (N : Rat) (digits : Nat) : G := if digits > 7 then stop else if N = 0 then pass else pass
+/-- `Round(N, digits)` after fixes 710b478 and f9320d5: `if(digits == 0 || digits > 7)` stops first, then `if(N == 0) return 0;` -/
+abbrev roundMeaningful (digits : Nat) : Prop := 1 ≤ digits ∧ digits ≤ 7
+def roundGuard (N : Rat) (digits : Nat) : G := if digits = 0 ∨ digits > 7 then stop else if N = 0 then pass else pass
 
 /-- `VSH_Y_Component`, `VSH_Psi_Component`: `switch(component)` with cases 0, 1, 2 -/
 abbrev vshMeaningful (component : Int) : Prop := component = 0 ∨ component = 1 ∨ component = 2
 def vshGuard (component : Int) : G :=
   if component = 0 then pass else if component = 1 then pass else if component = 2 then pass else stop
 
-/-- `Inv_Erf(p)`: `if(fabs(p - 1.0) < 1e-16) return 10.0; else if(fabs(p) >= 1.0)` stop.
-    Meaningful: `-1 < p < 1`, or p indistinguishable from 1 (saturated to 10 with a warning). -/
+/-- `Inv_Erf(p)` after fix e9e1286: `if(fabs(p - 1.0) < 1e-16) return 10; else if(fabs(p + 1.0) < 1e-16) return -10;
+    else if(fabs(p) >= 1.0)` stop.  Meaningful: `-1 < p < 1`, or p indistinguishable from ±1 (saturated with a warning). -/
 def invErfEps : Rat := 1 / 10 ^ 16
-abbrev invErfMeaningful (p : Rat) : Prop := -1 < p ∧ p < 1 + invErfEps
+abbrev invErfMeaningful (p : Rat) : Prop := -1 - invErfEps < p ∧ p < 1 + invErfEps
 def invErfGuard (p : Rat) : G :=
-  if rabs (p - 1) < invErfEps then pass else if rabs p ≥ 1 then stop else pass
+  if rabs (p - 1) < invErfEps then pass else if rabs (p + 1) < invErfEps then pass else if rabs p ≥ 1 then stop else pass
 
 /-! ## 7. Statistics (src/Statistics.cpp) -/
 
@@ -550,6 +550,10 @@ def likelihoodPoissonGuard (pred bkg : Rat) : G := if pred < 0 ∨ bkg < 0 then 
 /-- `Upper_Incomplete_Gamma(x, s)`, `Lower_Incomplete_Gamma(x, s)`: `Gamma(s)` then `GammaQ(x, s)`, each with its guard -/
 abbrev incompleteGammaMeaningful (x s : Rat) : Prop := 0 ≤ x ∧ 0 < s
 def incompleteGammaGuard (x s : Rat) : G := if s ≤ 0 then stop else if x < 0 ∨ s ≤ 0 then stop else pass
+
+/-- `PDF_Chi_Bar_Square`, `CDF_Chi_Bar_Square` (fix f024b96): every mixture weight in [0,1] -/
+abbrev chiBarMeaningful (ws : List Rat) : Prop := ∀ w ∈ ws, 0 ≤ w ∧ w ≤ 1
+def chiBarGuard (ws : List Rat) : G := if ws.all (fun w => decide (0 ≤ w) && decide (w ≤ 1)) then pass else stop
 
 /-- `Log_Likelihood_Poisson_Binned(pred, obs, bkg)`: an empty background list is replaced by zeros -/
 abbrev binnedMeaningful (nPred nObs nBkg : Nat) : Prop := nObs = nPred ∧ (nBkg = 0 ∨ nBkg = nPred)
@@ -628,9 +632,14 @@ def importListGuard (fileExists : Bool) : G := if fileExists then pass else stop
 abbrev importTableMeaningful (fileExists : Bool) (cols nd : Nat) : Prop := fileExists = true ∧ (nd = 0 ∨ nd = cols)
 /-- with the number of lines: a file without lines is an empty table (returned before the column test) -/
 abbrev importTableRowsMeaningful (fileExists : Bool) (rows cols nd : Nat) : Prop :=
-  fileExists = true ∧ (rows = 0 ∨ nd = 0 ∨ nd = cols)
+  fileExists = true ∧ (rows = 0 ∨ cols = 0 ∨ nd = 0 ∨ nd = cols)
 def importTableRowsGuard (fileExists : Bool) (rows cols nd : Nat) : G :=
-  if fileExists then (if rows = 0 then pass else if nd ≠ 0 ∧ nd ≠ cols then stop else pass) else stop
+  if fileExists then (if rows = 0 ∨ cols = 0 then pass else if nd ≠ 0 ∧ nd ≠ cols then stop else pass) else stop
+/-- fix c62bfe8: the entries must fill the rows (`entries != rows * (entries / rows)` stops), blank lines at the end are not rows;
+    `entries` = numbers in the file, `rows` = lines up to the last non-blank one -/
+abbrev importTableFillMeaningful (entries rows nd : Nat) : Prop := rows = 0 ∨ (entries % rows = 0 ∧ (nd = 0 ∨ nd = entries / rows))
+def importTableFillGuard (entries rows nd : Nat) : G :=
+  if rows = 0 then pass else if entries ≠ rows * (entries / rows) then stop else if nd ≠ 0 ∧ nd ≠ entries / rows then stop else pass
 def importTableGuard (fileExists : Bool) (cols nd : Nat) : G :=
   if fileExists then (if nd ≠ 0 ∧ nd ≠ cols then stop else pass) else stop
 
